@@ -408,6 +408,10 @@ class BehavioralRTLIRToVVisitorL1( bir.BehavioralRTLIRNodeVisitor ):
           f"unrecognized operator {op_t} for reduce method!" )
     value = s.visit( node.value )
     op = reduce_ops[ op_t ]
+    # A unary reduction operator binds tighter than any binary operator:
+    # "& a + b" means "(&a) + b", so a compound operand needs brackets.
+    if isinstance( node.value, (bir.IfExp, bir.UnaryOp, bir.BinOp, bir.Compare) ):
+      value = f"( {value} )"
     return f"( {op} {value} )"
 
   #-----------------------------------------------------------------------
